@@ -133,6 +133,27 @@ DictApply(d, op) ==
     [] op.o = "or" -> OkR(DUpdate(d, op.kvs), d)
     [] op.o = "eq" -> OkR(B2I(DEq(d, op.kvs)), d)
 
+\* ---- batched rebind on a LONG list (documented extension of pg.List): one call, two index entries, each a
+\* replacement, a deletion (the missing marker) or an insertion.  Every entry addresses a position of the list AS IT
+\* WAS BEFORE THE CALL, whatever the number of digits of the indices; the reference applies the higher index first.
+LongLen == 12
+LongList == [k \in 1..LongLen |-> 300 + k]
+RbKinds == {"set", "del", "ins"}
+RbOps == {[i |-> i, ki |-> ki, j |-> j, kj |-> kj] : i \in 0..(LongLen - 1), j \in 0..(LongLen - 1), ki \in RbKinds, kj \in RbKinds}
+RbOne(ys, i, k, v) == CASE k = "set" -> [ys EXCEPT ![i + 1] = v]
+                        [] k = "del" -> RemoveIdx(ys, i + 1)
+                        [] k = "ins" -> InsertIdx(ys, i + 1, v)
+RbApply(op) == RbOne(RbOne(LongList, op.j, op.kj, 402), op.i, op.ki, 401)
+RbOpSeq == SetToSeq({op \in RbOps : op.i < op.j})
+\* the same result described position by position (independent of the order of application)
+RbExpected(op) ==
+  LET piece(p) == IF p = op.i THEN (CASE op.ki = "set" -> <<401>> [] op.ki = "del" -> <<>> [] op.ki = "ins" -> <<401, LongList[p + 1]>>)
+                  ELSE IF p = op.j THEN (CASE op.kj = "set" -> <<402>> [] op.kj = "del" -> <<>> [] op.kj = "ins" -> <<402, LongList[p + 1]>>)
+                  ELSE <<LongList[p + 1]>>
+      F[p \in 0..LongLen] == IF p = 0 THEN <<>> ELSE F[p - 1] \o piece(p - 1)
+  IN F[LongLen]
+RebindLaw == \A k \in 1..Len(RbOpSeq) : RbApply(RbOpSeq[k]) = RbExpected(RbOpSeq[k])
+
 \* ---- sanity laws TLC checks on the reference itself
 VARIABLE xs
 Init == xs \in Lists
@@ -160,5 +181,6 @@ ASSUME IOEnv.OUT_FILE = "none" \/
          [lists |-> ListSeq, lops |-> LOpSeq,
           lres |-> [i \in 1..Len(ListSeq) |-> [j \in 1..Len(LOpSeq) |-> ListApply(ListSeq[i], LOpSeq[j])]],
           dicts |-> DictSeq, dops |-> DOpSeq,
-          dres |-> [i \in 1..Len(DictSeq) |-> [j \in 1..Len(DOpSeq) |-> DictApply(DictSeq[i], DOpSeq[j])]]])
+          dres |-> [i \in 1..Len(DictSeq) |-> [j \in 1..Len(DOpSeq) |-> DictApply(DictSeq[i], DOpSeq[j])]],
+          rblist |-> LongList, rbops |-> RbOpSeq, rbres |-> [k \in 1..Len(RbOpSeq) |-> RbApply(RbOpSeq[k])]])
 =============================================================================
